@@ -168,7 +168,8 @@ class Reproducer:
         return True
 
     def run(self, ins, lines, fill=0):
-        unit = {"label": self.ctx.get("label", "replay"), "source": self.ctx["source"], "argv": self.ctx["argv"]}
+        unit = {"label": self.ctx.get("label", "replay"), "source": self.ctx["source"], "argv": self.ctx["argv"],
+                "family": self.ctx.get("family")}
         scratch = os.path.join(self.workdir, self.tag)
         return engine.evaluate_script(unit, self.comp, self.drv, scratch, ins, lines, fill)
 
@@ -294,6 +295,7 @@ def write_replay(prop, f, ctx_min, root, reproduced, extra=None):
         "label": ctx_min.get("label"), "source": ctx_min["source"], "argv": ctx_min["argv"],
         "inputs": ctx_min["inputs"], "script": ctx_min["script"],
         "unminimised": {"argv": f["ctx"]["argv"], "inputs": f["ctx"]["inputs"], "script": f["ctx"]["script"]},
+        "family": ctx_min.get("family"),
         "reproduced_in_fresh_build": reproduced,
         "build_flags": cbuild.GEN_FLAGS,
         "stderr_tail": f.get("stderr_tail"),
@@ -313,7 +315,8 @@ def replay(prop, path, tree, workdir):
     if doc.get("kind_of_replay") == "replicas":
         from . import replicas
         return replicas.replay(prop, doc, tree, workdir)
-    ctx = {"label": doc.get("label"), "source": doc["source"], "argv": doc["argv"], "inputs": doc["inputs"], "script": doc["script"]}
+    ctx = {"label": doc.get("label"), "source": doc["source"], "argv": doc["argv"], "inputs": doc["inputs"], "script": doc["script"],
+           "family": doc.get("family")}
     rp = Reproducer(ctx, workdir, tree, doc.get("canaries"))
     try:
         if not rp.build():
